@@ -30,7 +30,12 @@ func init() {
 
 // randomFullTable re-weights a deep copy of table id so that every letter has a positive total.
 func randomFullTable(id int, r *rand.Rand) (codon.Table, plainTable) {
-	t := deepTable(id)
+	return reweightFull(deepTable(id), r)
+}
+
+// reweightFull re-weights t in place (OptimizeTable writes into the table it is called on) from a fresh
+// constructed coding sequence in which every amino acid occurs.
+func reweightFull(t codon.Table, r *rand.Rand) (codon.Table, plainTable) {
 	base := snapshot(t)
 	weights := map[string]int{}
 	for _, l := range base.letters() {
@@ -141,6 +146,30 @@ func runC18(w *mon.W) {
 			}
 			for _, c := range cuts {
 				c18Compromise(w, id, tid, t1, t2, s1, s2, c, r)
+			}
+			// ---- the same two tables re-weighted in place and combined again: the result must follow the
+			// weights the tables hold now, not those of the earlier combinations
+			for round := 0; round < 2; round++ {
+				if round == 0 {
+					t2, s2 = reweightFull(t2, r)
+				} else {
+					t1, s1 = reweightFull(t1, r)
+				}
+				w.Add("recombined_after_reweighting_in_place", 1)
+				var sum2 codon.Table
+				if p := mon.Try(func() { sum2 = codon.AddCodonTable(t1, t2) }); p == "" {
+					ss := snapshot(sum2)
+					for _, l := range s1.letters() {
+						for c, w1 := range s1.AA[l] {
+							if ss.AA[l][c] != w1+s2.AA[l][c] {
+								w.Violation(id, fmt.Sprintf("AddCodonTable after re-weighting an input in place: codon %s (%s) has weight %d, the inputs now have %d + %d", c, l, ss.AA[l][c], w1, s2.AA[l][c]), rep)
+							}
+						}
+					}
+				}
+				for _, c := range []float64{0, cuts[len(cuts)-1], 0.05 + 0.3*r.Float64()} {
+					c18Compromise(w, id, tid, t1, t2, s1, s2, c, r)
+				}
 			}
 			w.End()
 			if w.WantSample() {
